@@ -272,10 +272,40 @@ func c06Run(j *orch.Job, r *orch.Result) error {
 		}
 	}
 	if err != nil {
+		var wedgedAt uint32
+		lastErr := harness.LastDaemonError()
 		if n != nil {
+			wedgedAt, _ = n.Synced()
 			n.Stop()
 		}
 		if errors.Is(err, harness.ErrWedged) {
+			// the chain with repeats cannot get past a block: if that block holds a repeated entry and the same
+			// chain with first occurrences only does get past it, the copy has had an effect
+			w := wedgedAt + 1
+			seenAny := map[factom.Bytes32]bool{}
+			copyAtW := false
+			firstOnly := m.W.Variant(func(h uint32, s *forge.BlockSpec) {
+				var keep []forge.Entry
+				for _, en := range s.Tx {
+					if seenAny[en.Hash] {
+						if h == w {
+							copyAtW = true
+						}
+						continue
+					}
+					seenAny[en.Hash] = true
+					keep = append(keep, en)
+				}
+				s.Tx = keep
+			})
+			if copyAtW && wedgedAt != 0 {
+				if _, verr := Replay(firstOnly, ReplayOpts{DBPath: filepath.Join(j.Dir, "db-first-only-w"), ShortAvg: 12, Upto: w}); verr == nil {
+					r.Count("metamorphic_pairs", 1)
+					r.Violate("C06", "repeated-entry-stops-the-chain", fmt.Sprintf("block %d holds a copy of an entry written before; the chain cannot get past it (%s), the same chain with first occurrences only can", w, lastErr),
+						map[string]interface{}{"seed": p.Seed, "era": p.Era, "T": T, "eras": e, "height": w})
+					return nil
+				}
+			}
 			r.Inconclusive = append(r.Inconclusive, "chain wedged (reported by C08): "+err.Error())
 			return nil
 		}
